@@ -1066,6 +1066,9 @@ func (fc *FuncCtx) appendOp(res ssa.Value, c *ssa.CallCommon, args []TV, st *Sta
 		for i, el := range lits {
 			q.assume(fmt.Sprintf("(= (%s %s %s (+ (s-len %s) %d)) %s)", ef, nh, tv.T, s.T, i, el))
 		}
+	} else if t.S != "Str" {
+		// append(s, t...): element j of the result, j >= len(s), is element j-len(s) of t
+		q.assume(fmt.Sprintf("(forall ((k Int)) (! (=> (and (<= (s-len %s) k) (< k %s)) (= (%s %s %s k) (%s %s %s (- k (s-len %s))))) :pattern ((%s %s %s k))))", s.T, n, ef, nh, tv.T, ef, h, t.T, s.T, ef, nh, tv.T))
 	}
 	return st
 }
